@@ -17,7 +17,8 @@ Checks (one per clause of the statement)
                            the state after the whole history == the state after start() + one draw of the
                            last canvas on a fresh screen (compared through the interpreter only: this
                            clause does not use the expected-attribute tables)
-  C04/control-characters   canvases whose text contains C0 / DEL / C1 control characters: no control
+  C04/control-characters/{C0,DEL,C1}
+                           canvases whose text contains C0 / DEL / C1 control characters: no control
                            function reaches the terminal, every OTHER cell is painted as the canvas says
   C04/html-text            HtmlGenerator: fragment parsed as HTML gives exactly the canvas text row by row
   C04/html-cursor          HtmlGenerator: at most one highlighted character, and it is the one under the cursor
@@ -928,7 +929,13 @@ def run(tier="quick", seed=0):
     cursor = KCheck("C04/cursor", "cursor visible at the canvas cursor, hidden when the canvas has none, after every draw", False, bound)
     scroll = KCheck("C04/never-scrolls", "never scrolled; insert mode off and no unfinished/unknown sequence after a draw", False, bound)
     incr = KCheck("C04/incremental-equals-full-repaint", "terminal state after the history == state after one full repaint of the last canvas", False, bound)
-    ctl = KCheck("C04/control-characters", "a control character in the canvas text never reaches the terminal as a control function; all other cells exact", True, "10 control characters x position x widths 2..4 x rows 1..2 x 3 encodings")
+    # triage: one check per class of control character (C0 / DEL / C1).  The three classes fail for
+    # three different reasons (see the known findings) and the runner credits at most one known finding
+    # per check name, so a single check could not report them separately.  Same cases, same oracle.
+    ctl = {
+        k: KCheck(f"C04/control-characters/{k}", f"a {k} control character in the canvas text never reaches the terminal as a control function; all other cells exact", True, f"{n} control characters x position x widths 2..4 x rows 1..2 x 3 encodings")
+        for k, n in (("C0", 7), ("DEL", 1), ("C1", 2))
+    }
     htext = KCheck("C04/html-text", "HtmlGenerator fragment parsed as HTML == canvas text row by row, escaped", False, "frames <= 6x3, HTML-special characters, 5 (encoding, depth) configurations")
     hcur = KCheck("C04/html-cursor", "at most one highlighted character and it is under the cursor; none without a cursor", False, htext.bound)
 
@@ -985,7 +992,7 @@ def run(tier="quick", seed=0):
                                 "width": urwid.str_util.calc_width(c.encode(enc), 0, len(c.encode(enc))),
                                 "kind": kind,
                             } | {k: x for k, x in bad.items() if k != "sig"}
-                            ctl.case((enc, c, cols, rows, pos), not bad, det, sample={"control": repr(c), "cols": cols, "pos": pos}, sig=f"{control_class(c)}:{kind}:{enc}" if bad else None)
+                            ctl[control_class(c)].case((enc, c, cols, rows, pos), not bad, det, sample={"control": repr(c), "cols": cols, "pos": pos}, sig=f"{control_class(c)}:{kind}:{enc}" if bad else None)
 
         # HTML
         cur_enc = None
@@ -1006,7 +1013,7 @@ def run(tier="quick", seed=0):
         set_encoding(old_enc)
         CanvasCache.clear()
         _FULL_CACHE.clear()
-    checks = [c.result() for c in (paint, cursor, scroll, incr, ctl, htext, hcur)]
+    checks = [c.result() for c in (paint, cursor, scroll, incr, *ctl.values(), htext, hcur)]
     return {"checks": checks, "bound": bound, "families": families, "wall_s": round(time.time() - t0, 1)}
 
 
@@ -1018,7 +1025,7 @@ def replay(check_name, case):
         return {"outcome": "confirmed" if bad else "not-reproduced", "detail": bad or {}}
     c = case["config"]
     cfg = (c["depth"], c["back_color_erase"], c["encoding"])
-    if check_name == "C04/control-characters":
+    if check_name.startswith("C04/control-characters"):
         import ast
 
         bad = _with_encoding(cfg[2], lambda: run_control_case(cfg, ast.literal_eval(case["control"]), case["cols"], case["pos"], case["rows"]))
